@@ -177,6 +177,15 @@ func buildWorld(cc *run.Case, pool []namedStrat, nAssets, nStrats int, repoKind 
 		}
 		sc.InWindow[name], sc.Old[name] = nIn, nOld
 		bars := gen.Bars(r, []string{gen.Walk, gen.Walk2, gen.Ties}[r.Intn(3)], nIn+nOld)
+		if r.Intn(4) == 0 && len(bars) > 0 {
+			// a very quiet asset: every strategy ends within a few millionths of a
+			// percent of the others, yet the rankings must order them exactly
+			p0 := bars[0].C
+			q := func(p float64) float64 { return 100 + (p-p0)*1e-7 }
+			for i := range bars {
+				bars[i].O, bars[i].H, bars[i].L, bars[i].C = q(bars[i].O), q(bars[i].H), q(bars[i].L), q(bars[i].C)
+			}
+		}
 		// dates: old ones at least 2 days before the window edge, inside ones at
 		// least 2 days inside it and ending 2 days ago: the wall clock never
 		// decides which side a snapshot falls on.
